@@ -18,6 +18,7 @@ import (
 	"time"
 
 	"github.com/regclient/regclient"
+	"github.com/regclient/regclient/config"
 	"github.com/regclient/regclient/internal/verif/audit"
 	"github.com/regclient/regclient/internal/verif/explore"
 	"github.com/regclient/regclient/internal/verif/graphs"
@@ -34,12 +35,18 @@ type Scen struct {
 	Graph    string `json:"graph"`
 	Pair     string `json:"pair"` // same-repo, same-reg-grant, same-reg-refuse, two-reg, reg-dir, dir-reg, dir-dir
 	Opt      string `json:"opt"`  // default, recursive, referrers, referrers-filter, digest-tags, external, fast
-	Feat     string `json:"feat"` // full, noref (no referrers API), nohead (no digest header), novalidate
+	Feat     string `json:"feat"` // full, noref (no referrers API), noref-tgt (only the target registry lacks it), nohead (no digest header), novalidate
 	Pre      string `json:"pre"`  // empty, complete, stale, mask:<bits>
 	ByDigest bool   `json:"by_digest,omitempty"`
 	// Retry: the client's manifest cache is on (as regctl configures it) and a copy that failed is
 	// repeated once through the same client, without faults
 	Retry bool `json:"retry,omitempty"`
+	// Mirrors: the client's configuration names a mirror for the source and another for the target
+	// registry; both mirrors are reachable and hold nothing
+	Mirrors bool `json:"mirrors,omitempty"`
+	// Stall: schedules are enumerated by persistent delays (qsched.Demote): a delayed goroutine
+	// stays behind all others, so one departure stalls it while its siblings run on
+	Stall bool `json:"stall,omitempty"`
 }
 
 func (s Scen) String() string {
@@ -49,6 +56,12 @@ func (s Scen) String() string {
 	}
 	if s.Retry {
 		d += " cache+retry"
+	}
+	if s.Mirrors {
+		d += " empty-mirrors"
+	}
+	if s.Stall {
+		d += " stalls"
 	}
 	return fmt.Sprintf("%s %s opt=%s feat=%s pre=%s%s", s.Graph, s.Pair, s.Opt, s.Feat, s.Pre, d)
 }
@@ -124,6 +137,14 @@ type Exec struct {
 
 func (x *Exec) tgtIsDir() bool { return strings.HasSuffix(x.Sc.Pair, "-dir") }
 func (x *Exec) srcIsDir() bool { return strings.HasPrefix(x.Sc.Pair, "dir-") }
+
+// featuresTgt: the feature set of a target registry that is a host of its own.
+func featuresTgt(sc Scen) modelreg.Features {
+	if sc.Feat == "noref-tgt" {
+		sc.Feat = "noref"
+	}
+	return features(sc)
+}
 
 func features(sc Scen) modelreg.Features {
 	f := modelreg.Full()
@@ -228,7 +249,7 @@ func setup(t *testing.T, c *explore.Ctx, sc Scen, scratch string) *Exec {
 		tr = x.Net.Hosts[srcHost].Repo(tgtRepo)
 		x.Tgt, err = ref.New(srcHost + "/" + tgtRepo + ":" + tgtTag)
 	case "two-reg", "dir-reg":
-		h := x.Net.AddHost(tgtHost, f)
+		h := x.Net.AddHost(tgtHost, featuresTgt(sc))
 		tr = h.Repo(tgtRepo)
 		x.Tgt, err = ref.New(tgtHost + "/" + tgtRepo + ":" + tgtTag)
 	case "reg-dir", "dir-dir":
@@ -351,6 +372,19 @@ func preKeep(g *graphs.Graph, pre string) func(string) bool {
 	return nil
 }
 
+// errText is the error of the run with the per-execution scratch directory name taken out, so that two
+// replays of one choice list log the same text.
+func errText(x *Exec) string {
+	if x.Err == nil {
+		return "<nil>"
+	}
+	s := x.Err.Error()
+	if x.tmp != "" {
+		s = strings.ReplaceAll(s, x.tmp, "$SCRATCH")
+	}
+	return s
+}
+
 // Run executes one copy. The returned cleanup removes the scratch directory (layout targets must be
 // judged before it is called).
 func Run(t *testing.T, c *explore.Ctx, sc Scen, p Params, scratchRoot string) (*Exec, func()) {
@@ -372,7 +406,11 @@ func Run(t *testing.T, c *explore.Ctx, sc Scen, p Params, scratchRoot string) (*
 				x.Cancel()
 			}
 			if sched != nil {
-				sched.Point(qsched.KHTTP, "")
+				l := ""
+				if p.Sched.Trace {
+					l = e.Method + " " + e.Host + " " + e.Path
+				}
+				sched.Point(qsched.KHTTP, l)
 			}
 		}
 		x.Net.Decide = func(e *modelreg.Entry) *modelreg.Answer {
@@ -389,6 +427,25 @@ func Run(t *testing.T, c *explore.Ctx, sc Scen, p Params, scratchRoot string) (*
 		}
 		if sc.Retry {
 			ro.RegOpts = []reg.Opts{reg.WithCache(5*time.Minute, 500)}
+		}
+		if sc.Mirrors {
+			for _, m := range []string{"srcmirror.example", "tgtmirror.example"} {
+				if x.Net.Hosts[m] == nil {
+					x.Net.AddHost(m, modelreg.Full())
+				}
+			}
+			for _, h := range hosts {
+				hc := config.Host{Name: h, Hostname: h, TLS: config.TLSDisabled}
+				switch h {
+				case srcHost:
+					hc.Mirrors = []string{"srcmirror.example"}
+				case tgtHost:
+					hc.Mirrors = []string{"tgtmirror.example"}
+				}
+				ro.Hosts = append(ro.Hosts, hc)
+			}
+			ro.Hosts = append(ro.Hosts, config.Host{Name: "srcmirror.example", Hostname: "srcmirror.example", TLS: config.TLSDisabled},
+				config.Host{Name: "tgtmirror.example", Hostname: "tgtmirror.example", TLS: config.TLSDisabled})
 		}
 		rc := rcenv.New(x.Net, hosts, ro)
 		ctx, cancel := context.WithCancel(context.Background())
